@@ -5,6 +5,7 @@ ID = "C04"
 STAGES = [
     Stage("directsolve", "p04_directsolve", "plain", {"quick": 150, "thorough": 6000}, timeout_per_case=120),
     Stage("directsolve-asan", "p04_directsolve", "asan", {"quick": 24, "thorough": 600}, offset=1000000, timeout_per_case=300),
+    Stage("directsolve-thread-limit", "p04_directsolve", "plain", {"quick": 40, "thorough": 1000}, offset=2000000, timeout_per_case=120, env={"OMP_THREAD_LIMIT": "2"}),
 ]
 THRESHOLDS = {
     # |b - A x|_i / (sum_j |A_ij| * ||x||_inf + |b_i|): row-normwise backward error
